@@ -39,6 +39,13 @@ UVL_OPERATORS: dict[ASTOperation, str] = {ASTOperation.AND: "&",
                                           }
 
 
+# Words that the UVL lexer does not accept as plain identifiers
+UVL_KEYWORDS: set[str] = {'include', 'namespace', 'imports', 'as', 'features', 'cardinality',
+                          'constraint', 'constraints', 'sum', 'avg', 'len', 'floor', 'ceil',
+                          'String', 'Integer', 'Real', 'Boolean', 'Arithmetic', 'Type',
+                          'or', 'alternative', 'optional', 'mandatory', 'true', 'false'}
+
+
 class UVLWriter(ModelToText):
     @staticmethod
     def get_destination_extension() -> str:
@@ -162,7 +169,11 @@ def safename(name: str) -> str:
 def safe_simple_name(name: str) -> str:
     if name.startswith("'") and name.endswith("'"):
         return name
-    return f'"{name}"' if any(char not in safecharacters() for char in name) else name
+    if (any(char not in safecharacters() for char in name)
+            or name[:1] not in string.ascii_letters
+            or name in UVL_KEYWORDS):
+        return f'"{name}"'
+    return name
 
 
 def safecharacters() -> str:
